@@ -487,7 +487,7 @@ Proof.
     rewrite for_run_S, H3. rewrite <- E2. unfold s2. rewrite E3. rewrite H4. rewrite <- E3. unfold s3. apply H5.
 Qed.
 
-Theorem one_pass symbols pre hl forw es body cls rofw skip rest e v d_at content' :
+Theorem one_pass_full symbols pre hl forw es body cls rofw skip rest e v d_at content' :
   Forall pline_ok pre ->
   plbl_ok hl -> t_typ forw = tokText -> tok_is_pseudo forw = true -> lower_is (t_val forw) "for" = true -> Forall plain_tok es ->
   expand_and_evaluate (filter noncomment es) symbols = Some (EOk v) ->
@@ -497,10 +497,12 @@ Theorem one_pass symbols pre hl forw es body cls rofw skip rest e v d_at content
   Forall plain_tok skip -> Forall nonterm rest -> t_typ e = tokEOF ->
   let toks := flat_map pl_toks pre ++ (plbl_seg hl ++ forw :: es ++ [nlt]) ++ flat_map bl_toks body
               ++ lbl_seg cls ++ rofw :: skip ++ (nlt :: rest ++ [e]) in
+  closed_stream toks /\
   exists r, for_expand toks symbols = Some (Some r) /\
     fr_sends r = flat_map pl_out pre
                  ++ emit_body (Z.to_nat v) d_at (last (map fst hl) []) (init_list (map fst hl)) content'
-                 ++ rest.
+                 ++ rest /\
+    fr_tokens r = fr_sends r ++ [tEOF].
 Proof.
   intros Hpre Hhl Hft Hfp Hff Hes Hev Hbody Hrun Hcls Hrt Hrp Hrf Hrr Hskip Hrest He toks.
   destruct (block_chain symbols pre hl forw es body cls rofw skip (nlt :: rest ++ [e]) v d_at content'
@@ -552,7 +554,7 @@ Proof.
   change (mkF (rd_at toks) [] [] [] [] None 0%Z [] 0%nat [] false) with (fx toks [] [] [] [] None 0%Z [] 0%nat []) in Eres |- *.
   set (N := (4 * length toks + 8)%nat) in *.
   destruct (for_run symbols N FLine (fx toks [] [] [] [] None 0%Z [] 0%nat [])) as [f'|] eqn:Erun; [|discriminate Eres].
-  clear Eres. eexists. split; [reflexivity|]. cbn [fr_sends].
+  clear Eres. split; [exact Hclosed|]. eexists. split; [reflexivity|]. cbn [fr_sends fr_tokens].
   assert (HKN : (K <= N)%nat) by (unfold N; lia).
   replace N with (K + (N - K))%nat in Erun by lia. rewrite Hchain in Erun.
   assert (Hsk : Forall (fun t => nonterm t /\ t_typ t <> tokNewline) (rofw :: skip)).
@@ -561,5 +563,43 @@ Proof.
                 (fx (rofw :: skip ++ nlt :: rest ++ [e]) lab5 (filter noncomment es) (last (map fst hl) []) (init_list (map fst hl))
                     d_at v content' 0%nat (flat_map pl_out pre))
                 f' (rofw :: skip) rest e [] Hsk Hrest He eq_refl Erun) as Hout.
-  cbn [fx f_out f_count f_labels_at f_count_label f_line_labels f_content] in Hout. exact Hout.
+  cbn [fx f_out f_count f_labels_at f_count_label f_line_labels f_content] in Hout. split; [exact Hout|].
+  rewrite Hout.
+  set (OUT := flat_map pl_out pre ++ emit_body (Z.to_nat v) d_at (last (map fst hl) []) (init_list (map fst hl)) content' ++ rest).
+  rewrite <- (app_nil_r OUT) at 1. rewrite recv_nonterm; [reflexivity|].
+  unfold OUT. apply Forall_app. split.
+  { apply Forall_forall. intros t Hin. apply in_flat_map in Hin. destruct Hin as [p [Hp Ht]].
+    rewrite Forall_forall in Hpre. destruct (Hpre p Hp) as [Pl [Pr _]]. unfold pl_out in Ht.
+    apply in_app_or in Ht. destruct Ht as [Ht|Ht].
+    - apply in_map_iff in Ht. destruct Ht as [x [<- _]]. reflexivity.
+    - apply in_app_or in Ht. destruct Ht as [Ht|[<-|[]]]; [|reflexivity]. rewrite Forall_forall in Pr. apply (Pr t Ht). }
+  apply Forall_app. split; [|exact Hrest]. apply emit_body_nonterm.
+  assert (G : forall bs d a c d' a' c', Forall bline_ok bs -> Forall nonterm c -> body_run bs d a c = Some (d', a', c') -> Forall nonterm c').
+  { induction bs as [|b bs IH]; intros d a c d' a' c' Hb Hc Hr; cbn [body_run] in Hr; [inversion Hr; subst; exact Hc|].
+    inversion Hb as [|x y [Bl Br] Hbs]; subst. destruct (wclass (bl_first b) d) as [[[keep d2] mk]|]; [|discriminate Hr].
+    apply (IH _ _ _ _ _ _ Hbs) in Hr; [exact Hr|]. apply Forall_app. split; [exact Hc|]. unfold bl_out. apply Forall_app. split.
+    - destruct keep; [|constructor]. apply Forall_forall. intros t Ht. apply in_map_iff in Ht. destruct Ht as [x [<- _]]. reflexivity.
+    - apply Forall_app. split; [eapply Forall_impl; [|exact Br]; intros t [A _]; exact A|repeat constructor]. }
+  apply (G body 0%nat None [] 0%nat d_at content' Hbody ltac:(constructor) Hrun).
+Qed.
+
+Theorem one_pass symbols pre hl forw es body cls rofw skip rest e v d_at content' :
+  Forall pline_ok pre ->
+  plbl_ok hl -> t_typ forw = tokText -> tok_is_pseudo forw = true -> lower_is (t_val forw) "for" = true -> Forall plain_tok es ->
+  expand_and_evaluate (filter noncomment es) symbols = Some (EOk v) ->
+  Forall bline_ok body -> body_run body 0 None [] = Some (O, d_at, content') ->
+  Forall (fun vc => is_label (fst vc)) cls ->
+  t_typ rofw = tokText -> tok_is_pseudo rofw = true -> lower_is (t_val rofw) "for" = false -> lower_is (t_val rofw) "rof" = true ->
+  Forall plain_tok skip -> Forall nonterm rest -> t_typ e = tokEOF ->
+  let toks := flat_map pl_toks pre ++ (plbl_seg hl ++ forw :: es ++ [nlt]) ++ flat_map bl_toks body
+              ++ lbl_seg cls ++ rofw :: skip ++ (nlt :: rest ++ [e]) in
+  exists r, for_expand toks symbols = Some (Some r) /\
+    fr_sends r = flat_map pl_out pre
+                 ++ emit_body (Z.to_nat v) d_at (last (map fst hl) []) (init_list (map fst hl)) content'
+                 ++ rest.
+Proof.
+  intros Hpre Hhl Hft Hfp Hff Hes Hev Hbody Hrun Hcls Hrt Hrp Hrf Hrr Hskip Hrest He toks.
+  destruct (one_pass_full symbols pre hl forw es body cls rofw skip rest e v d_at content'
+              Hpre Hhl Hft Hfp Hff Hes Hev Hbody Hrun Hcls Hrt Hrp Hrf Hrr Hskip Hrest He) as [_ [r [H1 [H2 _]]]].
+  exists r. split; assumption.
 Qed.
